@@ -5,6 +5,9 @@ from concurrent.futures import ThreadPoolExecutor
 
 VERIF = os.path.dirname(os.path.dirname(os.path.abspath(__file__)))
 REPO = os.environ.get("VERIF_REPO", "/repo")
+# where evidence/ and replays/ are written (tools/seedtest.py redirects it so that runs against a seeded change
+# do not overwrite the evidence of the real tree)
+OUT = os.environ.get("VERIF_OUT", os.path.dirname(os.path.dirname(os.path.abspath(__file__))))
 COQ = os.path.join(VERIF, "coq")
 OCAML = os.path.join(VERIF, "ocaml")
 HARNESS = os.path.join(VERIF, "harness")
@@ -286,18 +289,18 @@ def known_findings(prop):
 
 # ---------------------------------------------------------------- evidence
 def write_evidence(prop, tier, seed, coverage, assumptions, wall, violations, level="proof"):
-    os.makedirs(os.path.join(VERIF, "evidence"), exist_ok=True)
+    os.makedirs(os.path.join(OUT, "evidence"), exist_ok=True)
     ev = {"property_id": prop, "tier": tier, "seed": int(seed), "level": level,
           "coverage": coverage, "assumptions": assumptions, "wall_s": round(wall, 2),
           "violations": int(violations)}
-    p = os.path.join(VERIF, "evidence", prop + ".json")
+    p = os.path.join(OUT, "evidence", prop + ".json")
     with open(p, "w") as f:
         json.dump(ev, f, indent=1, sort_keys=True)
     return p
 
 
 def write_replay(prop, name, payload):
-    d = os.path.join(VERIF, "replays", prop)
+    d = os.path.join(OUT, "replays", prop)
     os.makedirs(d, exist_ok=True)
     p = os.path.join(d, name)
     with open(p, "w") as f:
